@@ -456,6 +456,19 @@ KNOWN_PROBES = [
      _simple_def(events=(('new', 'A', 'B'),), dynamic=False), ''),
     ('F7-concrete-ctx-without-default', 'concrete context without Default under dynamic dispatch: the generated `impl Default … where Ctx: Default` is rejected',
      _simple_def(ctx=['NoDef']), '#[derive(Debug)] pub struct NoDef;\n'),
+    # the remaining families of derived-name coincidences (Lean: C14Names.accepted_iff and its corollaries)
+    ('F5-extractor-collision', 'states `HTTPServer` and `HttpServer` (no data) both get the extractor `into_http_server` under dynamic dispatch',
+     _simple_def(states=('HTTPServer', 'HttpServer'), events=(('go', 'HTTPServer', 'HttpServer'),)), ''),
+    ('F5-extractor-meets-reader', 'state `Data` beside a data-carrying state `Into`: extractor and reader are both `into_data`',
+     _simple_def(states=('Into', 'Data'), events=(('go', 'Into', 'Data'),), data=('Into',)), ''),
+    ('F5-event-named-like-accessor', 'an event named `state_data_idle` beside a data-carrying state `Idle` clashes with the generated accessor',
+     _simple_def(states=('Idle', 'B'), events=(('state_data_idle', 'B', 'Idle'),), data=('Idle',), dynamic=False), ''),
+    ('F5-event-named-like-own-accessor', 'an event named `idle_data` leaving the data-carrying state `Idle` clashes with its accessor',
+     _simple_def(states=('Idle', 'B'), events=(('idle_data', 'Idle', 'B'),), data=('Idle',), dynamic=False), ''),
+    ('F5-event-named-into-dynamic', 'an event named `into_dynamic` under dynamic dispatch clashes with the conversion',
+     _simple_def(events=(('into_dynamic', 'A', 'B'),)), ''),
+    ('F5-state-named-like-generated-type', 'a state named `MEvent` in a machine `M` under dynamic dispatch clashes with the generated event enum',
+     _simple_def(states=('A', 'MEvent'), events=(('go', 'A', 'MEvent'),)), ''),
 ]
 
 ADVERSARIAL = ['C', 'S', 'T', 'Ok', 'Err', 'Some', 'None', 'Result', 'Option', 'Default', 'Debug', 'Self_', 'Box', 'Send',
